@@ -13,7 +13,7 @@ Definition obs_code (o : obs) : list nat :=
 
 Definition snap (s : st) : list nat :=
   [taken s; n_disp s; n_comp s; length (jobs s); b2n (iterating s); b2n (aborting s);
-   length (ready s); b2n (running s); b2n (exception s)].
+   length (ready s); b2n (running s); b2n (exception s); length (delivered s)].
 
 (* per event: observations, snapshot, batches submitted so far by the current call *)
 Fixpoint run_show (g : bool) (s : st) (es : list ev) : list (list (list nat) * list nat * list (list nat)) :=
